@@ -568,7 +568,7 @@ func hintBytesSlice(r *rnd, pos, n int, prev []cty.Value) *cty.Value {
 
 func hintIndex(r *rnd, pos, n int, prev []cty.Value) *cty.Value {
 	if pos == 0 {
-		return pv(seqOf(r, "list", "map", "tuple", "object", "set"))
+		return pv(seqOf(r, "list", "map", "tuple", "list", "map", "tuple", "object", "set"))
 	}
 	u, _ := prev[0].Unmark()
 	ty := u.Type()
@@ -600,6 +600,18 @@ func hintSlice(r *rnd, pos, n int, prev []cty.Value) *cty.Value {
 	if pos == 0 {
 		return pv(seqOf(r, "list", "tuple", "tuple", "set"))
 	}
+	if pos == 2 && r.Chance(2, 3) {
+		// mostly a valid end index (start <= end <= length)
+		start := 0
+		if p1, _ := prev[1].Unmark(); p1.IsKnown() && !p1.IsNull() && p1.Type() == cty.Number {
+			if f, acc := p1.AsBigFloat().Int64(); acc == 0 && f >= 0 && f <= 4 {
+				start = int(f)
+			}
+		}
+		if l := lenOf(prev[0]); l >= start {
+			return pv(cty.NumberIntVal(int64(start + r.Intn(l-start+1))))
+		}
+	}
 	return pv(smallInt(r, -1, lenOf(prev[0])+1))
 }
 
@@ -620,7 +632,7 @@ func hintLookup(r *rnd, pos, n int, prev []cty.Value) *cty.Value {
 	u, _ := prev[0].Unmark()
 	ty := u.Type()
 	if ty.IsMapType() && r.Chance(2, 3) {
-		return pv(genOfType(r, ty.ElementType(), valOpts{}))
+		return pv(valueOrAbsent(r, variantType(r, ty.ElementType(), 1)))
 	}
 	return nil
 }
@@ -631,6 +643,9 @@ func hintMerge(r *rnd, pos, n int, prev []cty.Value) *cty.Value {
 		u, _ := prev[r.Intn(len(prev))].Unmark()
 		ty := u.Type()
 		if ty != cty.DynamicPseudoType {
+			if r.Bool() {
+				ty = variantType(r, ty, 0)
+			}
 			switch r.Intn(5) {
 			case 0:
 				return pv(cty.NullVal(ty))
@@ -704,37 +719,159 @@ func hintContains(r *rnd, pos, n int, prev []cty.Value) *cty.Value {
 		return pv(es[r.Intn(len(es))])
 	}
 	if u.Type().IsCollectionType() && r.Bool() {
-		return pv(genOfType(r, u.Type().ElementType(), valOpts{}))
+		return pv(valueOrAbsent(r, variantType(r, u.Type().ElementType(), 1)))
 	}
 	return nil
 }
 
-func hintSameType(r *rnd, pos, n int, prev []cty.Value) *cty.Value {
-	if pos == 0 || len(prev) == 0 {
-		return nil
+// --- type families: variants of a base type that unification may or may not
+// reconcile (list/set/tuple, map/object, primitive swaps, dynamic leaves)
+
+func variantType(r *rnd, t cty.Type, depth int) cty.Type {
+	if depth > 3 {
+		return t
 	}
-	switch r.Intn(4) {
-	case 0:
-		return pv(prev[0])
-	case 1, 2:
-		u, _ := prev[0].Unmark()
-		return pv(genOfType(r, u.Type(), valOpts{}))
+	switch k := r.Intn(20); {
+	case k < 6:
+		return t
+	case k < 7:
+		return cty.DynamicPseudoType
 	}
-	return nil
+	prims := []cty.Type{cty.String, cty.Number, cty.Bool}
+	switch {
+	case t == cty.String || t == cty.Number || t == cty.Bool:
+		return prims[r.Intn(3)]
+	case t.IsListType() || t.IsSetType():
+		e := variantType(r, t.ElementType(), depth+1)
+		switch r.Intn(4) {
+		case 0:
+			return cty.List(e)
+		case 1:
+			return cty.Set(e)
+		case 2:
+			n := r.Intn(4)
+			es := make([]cty.Type, n)
+			for i := range es {
+				es[i] = variantType(r, t.ElementType(), depth+1)
+			}
+			return cty.Tuple(es)
+		}
+		if t.IsListType() {
+			return cty.List(e)
+		}
+		return cty.Set(e)
+	case t.IsTupleType():
+		ets := t.TupleElementTypes()
+		if len(ets) > 0 && r.Chance(1, 3) {
+			e := variantType(r, ets[0], depth+1)
+			if r.Bool() {
+				return cty.List(e)
+			}
+			return cty.Set(e)
+		}
+		out := make([]cty.Type, 0, len(ets)+1)
+		for _, e := range ets {
+			if r.Chance(1, 10) {
+				continue
+			}
+			out = append(out, variantType(r, e, depth+1))
+		}
+		if r.Chance(1, 10) {
+			out = append(out, primType(r))
+		}
+		return cty.Tuple(out)
+	case t.IsMapType():
+		e := variantType(r, t.ElementType(), depth+1)
+		if r.Chance(1, 3) {
+			at := map[string]cty.Type{}
+			for i, n := 0, r.Intn(3); i < n; i++ {
+				at[attrPool[r.Intn(len(attrPool))]] = variantType(r, t.ElementType(), depth+1)
+			}
+			return cty.Object(at)
+		}
+		return cty.Map(e)
+	case t.IsObjectType():
+		tn := model.TNodeOf(t)
+		names := tn.AttrNames()
+		if len(names) > 0 && r.Chance(1, 3) {
+			return cty.Map(variantType(r, t.AttributeType(names[0]), depth+1))
+		}
+		at := map[string]cty.Type{}
+		for _, k := range names {
+			if r.Chance(1, 10) {
+				continue
+			}
+			at[k] = variantType(r, t.AttributeType(k), depth+1)
+		}
+		if r.Chance(1, 10) {
+			at[attrPool[r.Intn(len(attrPool))]] = primType(r)
+		}
+		return cty.Object(at)
+	}
+	return t
 }
 
-func hintCoalesce(r *rnd, pos, n int, prev []cty.Value) *cty.Value {
-	if pos == 0 || len(prev) == 0 {
-		return nil
-	}
-	u, _ := prev[r.Intn(len(prev))].Unmark()
-	switch r.Intn(5) {
+// valueOrAbsent draws a value of type ty: mostly known, sometimes null or unknown.
+func valueOrAbsent(r *rnd, ty cty.Type) cty.Value {
+	switch r.Intn(12) {
 	case 0:
-		return pv(cty.NullVal(u.Type()))
-	case 1, 2:
-		return pv(genOfType(r, u.Type(), valOpts{}))
+		return cty.NullVal(ty)
+	case 1:
+		return unknownOf(r, ty)
 	}
-	return nil
+	return genOfType(r, ty, valOpts{})
+}
+
+// hintFamily makes every argument after the first a value of a variant of the
+// type of an earlier argument. wrap, if not "", forces the collection kind of
+// the variant (the parameter's constraint).
+func hintFamily(first []string, wrap string) func(r *rnd, pos, n int, prev []cty.Value) *cty.Value {
+	return func(r *rnd, pos, n int, prev []cty.Value) *cty.Value {
+		if pos == 0 || len(prev) == 0 {
+			if len(first) == 0 {
+				return nil
+			}
+			return pv(seqOf(r, first...))
+		}
+		u, _ := prev[r.Intn(len(prev))].Unmark()
+		bt := u.Type()
+		if bt == cty.DynamicPseudoType {
+			return nil
+		}
+		switch wrap {
+		case "set":
+			if !bt.IsSetType() {
+				return nil
+			}
+			if r.Chance(1, 8) {
+				if r.Bool() {
+					return pv(cty.SetValEmpty(cty.DynamicPseudoType))
+				}
+				return pv(cty.UnknownVal(cty.Set(cty.DynamicPseudoType)))
+			}
+			return pv(valueOrAbsent(r, cty.Set(variantType(r, bt.ElementType(), 1))))
+		case "elem":
+			if !bt.IsCollectionType() {
+				return nil
+			}
+			return pv(valueOrAbsent(r, variantType(r, bt.ElementType(), 1)))
+		}
+		return pv(valueOrAbsent(r, variantType(r, bt, 0)))
+	}
+}
+
+// hintTo feeds a conversion function values of variants of its target type.
+func hintTo(target cty.Type) func(r *rnd, pos, n int, prev []cty.Value) *cty.Value {
+	return func(r *rnd, pos, n int, prev []cty.Value) *cty.Value {
+		if target == cty.DynamicPseudoType || r.Chance(1, 4) {
+			return nil
+		}
+		t := target
+		if t.HasDynamicTypes() {
+			t = concretize(r, t)
+		}
+		return pv(valueOrAbsent(r, variantType(r, t, 0)))
+	}
 }
 
 // --- printf-style format strings, from the verb grammar of format_fsm.rl:
@@ -905,14 +1042,24 @@ func hintFormatDate(r *rnd, pos, n int, prev []cty.Value) *cty.Value {
 		}
 		return pv(cty.StringVal(s))
 	}
-	return pv(cty.StringVal(mutate(r, timestampPool[r.Intn(len(timestampPool))])))
+	return pv(cty.StringVal(pickTimestamp(r)))
 }
 
 var durationPool = []string{"1h", "-1h", "1.5h", "0", "1000000h", "2562047h47m16.854775807s", "-2562047h47m16.854775808s", "9223372036854775807ns", "-9223372036854775808ns", "9223372036854775808ns", "1d", "", "h", "1h1h", "1µs", "1us", ".5s", "1e3s", "+1m", "1 h", "1H", "876000h"}
 
+func pickTimestamp(r *rnd) string {
+	if r.Bool() {
+		return timestampPool[r.Intn(9)] // the well-formed ones
+	}
+	return mutate(r, timestampPool[r.Intn(len(timestampPool))])
+}
+
 func hintTimeAdd(r *rnd, pos, n int, prev []cty.Value) *cty.Value {
 	if pos == 0 {
-		return pv(cty.StringVal(mutate(r, timestampPool[r.Intn(len(timestampPool))])))
+		return pv(cty.StringVal(pickTimestamp(r)))
+	}
+	if r.Bool() {
+		return pv(cty.StringVal(durationPool[r.Intn(9)]))
 	}
 	return pv(cty.StringVal(mutate(r, durationPool[r.Intn(len(durationPool))])))
 }
